@@ -279,9 +279,41 @@ func (g *progGen) agg(inner string) string {
 	return fmt.Sprintf("%s %s (%s) (%s%s)", op, mod, g.labelsList("agg-label", 1), param, inner)
 }
 
+// template builds binary operations whose sides are aggregated compatibly, so that the unsharded
+// evaluation usually succeeds (free combination mostly ends in many-to-many matching errors).
+func (g *progGen) template() string {
+	aggOp := func() string { return []string{"sum", "max", "count", "avg", "min"}[g.x.Draw("t-agg", 5)] }
+	op := []string{"/", "+", "*", "-", "> bool", ">", "and", "unless", "or"}[g.x.Draw("t-op", 9)]
+	setOp := op == "and" || op == "unless" || op == "or"
+	switch g.x.Draw("template", 5) {
+	case 0:
+		return fmt.Sprintf("(%s by (a, b) (%s)) %s on (a, b) (%s by (a, b) (%s))", aggOp(), g.leaf(), op, aggOp(), g.leaf())
+	case 1:
+		if setOp {
+			op = "*"
+		}
+		return fmt.Sprintf("(%s by (a) (%s)) %s on () group_left () (%s)", aggOp(), g.leaf(), op, []string{`n{a="x",b="1"}`, `m{a="y",b="2"}`, `max(n)`, `sum without (a, b, c) (m)`}[g.x.Draw("t-single", 4)])
+	case 2:
+		if setOp {
+			op = "/"
+		}
+		return fmt.Sprintf("(%s by (a, b) (%s)) %s on (a) group_left () (%s by (a) (%s))", aggOp(), g.leaf(), op, aggOp(), g.leaf())
+	case 3:
+		return fmt.Sprintf("(%s without (c) (%s)) %s ignoring (b) %s(%s without (b, c) (%s))", aggOp(), g.leaf(), op, map[bool]string{true: "", false: "group_left () "}[setOp], aggOp(), g.leaf())
+	}
+	return fmt.Sprintf("(%s by (a) (%s)) %s on (a) (%s by (a) (%s))", aggOp(), g.selector("m"), op, aggOp(), g.selector("n"))
+}
+
 func (g *progGen) vector(depth int) string {
 	if depth <= 0 {
 		return g.leaf()
+	}
+	if g.x.Bool("use-template", 1, 4) {
+		t := g.template()
+		if depth > 1 && g.x.Bool("wrap-template", 1, 3) {
+			return g.agg(t)
+		}
+		return t
 	}
 	switch g.x.Draw("shape", 8) {
 	case 0, 1:
@@ -472,6 +504,11 @@ func runC44(x *simkit.Exec) {
 			if r.in.shardable && len(want) > 0 {
 				x.Nontrivial = true
 				s.Probe("c44.sharded_nonempty_compared")
+				for _, f := range strings.Split(shapeOf(r.in.q), "+") {
+					if f != "" {
+						s.Probe("c44.compared_shape:" + f)
+					}
+				}
 			}
 			describe := func() string {
 				return fmt.Sprintf("program: %s\nanalyzer: shardable=%v by=%v labels=%v; shards=%d\nrange: [%s,%s] step %dms\nseries:\n  %s", r.in.q, r.in.shardable, r.in.by, r.in.lbls, numShards,
@@ -516,7 +553,7 @@ func projection(ls labels.Labels, by bool, names []string) string {
 // uses, without label names or numbers.
 func shapeOf(q string) string {
 	var feats []string
-	for _, f := range []string{"label_replace", "label_join", "histogram_quantile", "group_left", "on ()", "on (", "ignoring (", " without ", " by ",
+	for _, f := range []string{"label_replace", "label_join", "histogram_quantile", "group_left", "on () ", "on (", "ignoring (", " without ", " by ",
 		"topk", "quantile by", "quantile without", "stddev", " and ", " or ", " unless ", "rate(", "increase(", "abs("} {
 		if strings.Contains(q, f) {
 			feats = append(feats, strings.TrimSpace(strings.Trim(f, "( ")))
@@ -525,7 +562,7 @@ func shapeOf(q string) string {
 	// "on (" also matches "on ()": keep the more specific one only
 	out := feats[:0]
 	for _, f := range feats {
-		if f == "on" && strings.Contains(q, "on ()") && !strings.Contains(strings.ReplaceAll(q, "on ()", ""), "on (") {
+		if f == "on" && !strings.Contains(strings.ReplaceAll(q, "on ()", ""), "on (") {
 			continue
 		}
 		out = append(out, f)
